@@ -75,3 +75,32 @@ __CPROVER_ensures (rp[1] != 0);
   __CPROVER_assert (((V_u128) R[1] << 64 | R[0]) == ((V_u128) m << (t & 127)), "[C11] extract_double: {rp[1],rp[0]} * 2^(64(e-2)) == d exactly (normal and subnormal)");
 }''', timeout=600,
     selftest=[('__gmp_extract_double', r'exp -= 1022;', 'exp -= 1023;'), ('__gmp_extract_double', r'exp = 1;\s*do', 'exp = 0; do'), ('__gmp_extract_double', r'\(\(mp_limb_t\) x\.s\.manl << 11\)', '((mp_limb_t) x.s.manl << 10)')]))
+
+# ------------------------------------------------------------------ mpz_set_d: the truncated integer part of any finite double, on top of the proved __gmp_extract_double
+# The harness calls the real __gmp_extract_double itself (same body, proved above to denote d exactly) to name the two significand limbs T and the limb exponent e;
+# mpz_set_d must deliver sign(d) * trunc ({T[1],T[0]} * B^(e-2)): T[1] at limb e-1, T[0] at limb e-2 (dropped when e == 1), zeros below, 0 when e <= 0.
+from c04_alloc import mpz_obj
+from c03_mpz import store_loop
+UNITS.append(dict(
+    name='mpz_set_d', props=['C11', 'C04', 'C15'], source='mpz/set_d.c', extra_sources=['extract-dbl.c'], contracts=['mpn.h', 'mpz.h'],
+    contract_text='''void __gmpz_set_d (mpz_ptr r, double d)
+__CPROVER_requires (V_WF (r) && !__CPROVER_isnand (d) && !__CPROVER_isinfd (d) && V_GHOSTS_OK)
+__CPROVER_assigns (*r, __CPROVER_object_whole (V_PTR (r)))
+__CPROVER_frees (V_PTR (r))
+__CPROVER_ensures (V_WF_AT (r, gk));
+''', enforce=['__gmpz_set_d'], replace=['__gmpz_realloc'], unwind=66,
+    functions={'__gmpz_set_d': dict(loops={0: store_loop('gk')})},
+    assumptions=['d finite (NaN and infinities raise the invalid-operation trap: not modelled)', '__gmp_extract_double is taken with its real body (unwound completely); its own unit proves that its output denotes d exactly'],
+    harness='''void h_mpz_set_d (void) {
+%s  mpz_ptr r = &R;
+  double d; __CPROVER_assume (!__CPROVER_isnand (d) && !__CPROVER_isinfd (d));
+  gk = nondet_long (); gj = 0; gh = 0; __CPROVER_assume (0 <= gk && gk < V_ZMAX && V_WF (r));
+  mp_limb_t T[2]; double ad = d < 0 ? -d : d;
+  int e = __gmp_extract_double (T, ad);
+  __gmpz_set_d (r, d);
+  long rn = e > 0 ? e : 0, sw = V_SIZ (r);
+  mp_limb_t Wk = V_PTR (r)[gk < V_ALLOC (r) ? gk : 0];
+  __CPROVER_assert (sw == (d < 0 ? -rn : rn), "[C11] mpz_set_d: size = limb exponent of d (0 when |d| < 1), sign of d");
+  __CPROVER_assert (gk < rn ==> Wk == (gk == rn - 1 ? T[1] : (gk == rn - 2 ? T[0] : 0)), "[C11] mpz_set_d: the significand limbs at the top, zeros below: trunc (d) exactly");
+}''' % mpz_obj('R'), timeout=600,
+    selftest=[('__gmpz_set_d', r'rp\[0\] = tp\[1\];', 'rp[0] = tp[0];'), ('__gmpz_set_d', r'negative \? -rn : rn', 'negative ? rn : rn'), ('__gmpz_set_d', r'\(\(r\)->_mp_alloc\) < rn', '((r)->_mp_alloc) < rn - 1')]))
